@@ -50,6 +50,127 @@ class Path:
     writes: tuple = ()  # (parameter, final term) for parameters whose OBJECT the callee has modified in place
 
 
+def _live_at_entry(stmts: list, defined: set) -> set:
+    """Names that may be READ before they are assigned when `stmts` run from the top (definite-assignment analysis over the statement kinds the
+    repository uses; nested function bodies count as reads of everything they mention)."""
+    live: set = set()
+
+    def reads(e) -> set:
+        if e is None:
+            return set()
+        own = set()  # names bound inside the expression itself (comprehension targets, lambda parameters) are not the function's variables
+        for n in ast.walk(e):
+            if isinstance(n, ast.comprehension):
+                own |= {m.id for m in ast.walk(n.target) if isinstance(m, ast.Name)}
+            elif isinstance(n, ast.Lambda):
+                own |= {a_.arg for a_ in n.args.posonlyargs + n.args.args + n.args.kwonlyargs}
+        return {n.id for n in ast.walk(e) if isinstance(n, ast.Name) and isinstance(n.ctx, ast.Load)} - own
+
+    def stores(t) -> set:
+        return {n.id for n in ast.walk(t) if isinstance(n, ast.Name) and isinstance(n.ctx, (ast.Store, ast.Del))}
+
+    def run(block: list, d: set) -> set | None:
+        """returns the names definitely assigned after the block, or None when the block never falls through"""
+        d = set(d)
+        for st in block:
+            if isinstance(st, (ast.Assign, ast.AnnAssign, ast.AugAssign)):
+                val = st.value
+                live.update(reads(val) - d)
+                tg = st.targets if isinstance(st, ast.Assign) else [st.target]
+                for t in tg:
+                    if isinstance(st, ast.AugAssign):
+                        live.update(reads(ast.Expr(value=ast.Name(id=t.id, ctx=ast.Load()))) - d if isinstance(t, ast.Name) else reads(t) - d)
+                    # subscripts / attributes on the left read their base
+                    for n in ast.walk(t):
+                        if isinstance(n, ast.Name) and isinstance(n.ctx, ast.Load):
+                            if n.id not in d:
+                                live.add(n.id)
+                    d |= {n.id for n in ast.walk(t) if isinstance(n, ast.Name) and isinstance(n.ctx, ast.Store)} if not isinstance(t, ast.Name) else {t.id}
+            elif isinstance(st, (ast.Expr, ast.Return, ast.Raise, ast.Assert, ast.Delete)):
+                live.update(reads(st) - d)
+                if isinstance(st, (ast.Return, ast.Raise)):
+                    return None
+            elif isinstance(st, ast.If):
+                live.update(reads(st.test) - d)
+                d1, d2 = run(st.body, d), run(st.orelse, d)
+                if d1 is None and d2 is None:
+                    return None
+                d = d2 if d1 is None else d1 if d2 is None else (d1 & d2)
+            elif isinstance(st, (ast.For, ast.While)):
+                if isinstance(st, ast.For):
+                    live.update(reads(st.iter) - d)
+                    inner = d | stores(st.target)
+                else:
+                    live.update(reads(st.test) - d)
+                    inner = set(d)
+                run(st.body, inner)
+                r = run(st.orelse, d)
+                d = d if r is None else (d & r) | d
+            elif isinstance(st, ast.With):
+                for it in st.items:
+                    live.update(reads(it.context_expr) - d)
+                    if it.optional_vars is not None:
+                        d |= stores(it.optional_vars)
+                r = run(st.body, d)
+                if r is None:
+                    return None
+                d = r
+            elif isinstance(st, ast.Try):
+                r = run(st.body, d)
+                for h in st.handlers:
+                    run(h.body, d | ({h.name} if h.name else set()))
+                run(st.orelse, r if r is not None else d)
+                rf = run(st.finalbody, d)
+                d = d if rf is None else rf
+            elif isinstance(st, (ast.Break, ast.Continue)):
+                return None
+            elif isinstance(st, (ast.Pass, ast.Import, ast.ImportFrom, ast.Global, ast.Nonlocal)):
+                pass
+            else:
+                live.update(reads(st) - d)
+        return d
+
+    run(stmts, defined)
+    return live
+
+
+_dal_cache: dict = {}
+
+
+def _descent_as_loop(func) -> list:
+    """`def f(x, ...): if isinstance(x, C): return f(x.attr, ...same other arguments...)` followed by the rest: the tail call only walks down
+    the attribute, so the function is  `while isinstance(x, C): x = x.attr`  followed by the rest (the evaluator's `peel`)."""
+    key = id(func.node)
+    if key in _dal_cache:
+        return _dal_cache[key][1]
+    body = list(func.node.body)
+    out = body
+    i = 1 if body and isinstance(body[0], ast.Expr) and isinstance(body[0].value, ast.Constant) and isinstance(body[0].value.value, str) else 0
+    a = func.node.args
+    params = [x.arg for x in a.posonlyargs + a.args]
+    if func.cls is None and i < len(body) and isinstance(body[i], ast.If) and not body[i].orelse and len(body[i].body) == 1 and not a.vararg and not a.kwarg:
+        st, ret = body[i], body[i].body[0]
+        t = st.test
+        if isinstance(ret, ast.Return) and isinstance(ret.value, ast.Call) and isinstance(ret.value.func, ast.Name) and ret.value.func.id == func.node.name \
+                and isinstance(t, ast.Call) and isinstance(t.func, ast.Name) and t.func.id == "isinstance" and len(t.args) == 2 and isinstance(t.args[0], ast.Name) \
+                and t.args[0].id in params and not ret.value.keywords and len(ret.value.args) == len(params):
+            x = t.args[0].id
+            ok = True
+            for prm, arg in zip(params, ret.value.args):
+                if prm == x:
+                    ok = ok and isinstance(arg, ast.Attribute) and isinstance(arg.value, ast.Name) and arg.value.id == x
+                else:
+                    ok = ok and isinstance(arg, ast.Name) and arg.id == prm
+            if ok:
+                attr = ret.value.args[params.index(x)]
+                step = ast.Assign(targets=[ast.Name(id=x, ctx=ast.Store())], value=attr, lineno=ret.lineno, col_offset=0)
+                loop = ast.While(test=t, body=[step], orelse=[], lineno=st.lineno, col_offset=st.col_offset)
+                ast.fix_missing_locations(loop)
+                out = body[:i] + [loop] + body[i + 1:]
+    _dal_cache[key] = (func.node, out)
+    return out
+
+
 _rab_cache: dict = {}
 
 
@@ -272,6 +393,10 @@ class Evaluator:
         if h == "ite":
             a, b = self.typeof(t[2]), self.typeof(t[3])
             return a if a == b else None
+        if h == "index" and t[2][0] == "const" and isinstance(t[2][1], int):
+            et = self.elem_type(t[1])
+            if et is not None and not (isinstance(et, tuple) and et and et[0] == "pair"):
+                return et
         if h == "call" and t[1] == "next" and t[2]:
             # next(iterable[, default]): an element of the iterable (the default case is tested separately by `is None`)
             src = t[2][0]
@@ -309,6 +434,9 @@ class Evaluator:
             return None
         if h in ("setof", "copyof"):
             return self.elem_type(t[1], depth + 1)
+        if h == "accum" and t[1] in ("concat", "union") and len(t) > 3 and t[3][0] in ("listlit", "setlit") and len(t[3][1]) == 1:
+            # a list / set filled one element per iteration: its elements have the type of what is added
+            return self.typeof(t[3][1][0])
         if h in ("inter", "diff"):
             return self.elem_type(t[1], depth + 1)
         if h == "union":
@@ -542,46 +670,88 @@ class Evaluator:
         return [(state, "fall", None, line)]
 
     def _while_as_recursion(self, st: ast.While, state: State, func: Func):
-        """`def f(p): while c: BODY  ; TAIL`  where the loop is the first thing f does and BODY re-binds only parameters: running the loop once
-        more from the top is calling f again with the new parameter values (tail recursion written as iteration).  One pass through BODY is
-        executed: paths that `break` (or fail the test) go on to TAIL, paths that reach the end of BODY return f(new values)."""
+        """`def f(p): [x = p]; while c: BODY  ; TAIL`  where the loop is the first thing f does and BODY carries only parameters (or their
+        aliases `x = p` set up just before the loop) from one iteration to the next: running the loop once more from the top is calling f
+        again with the new values (tail recursion written as iteration).  One pass through BODY is executed: paths that `break` (or fail
+        the test) go on to TAIL, paths that reach the end of BODY return f(new values).  Variables the body assigns before it reads them
+        (temporaries of one iteration) are not carried."""
         node = func.node
-        if st.orelse or func.is_generator or func.cls is not None:
+        if st.orelse or func.is_generator:
             return None
         body = list(node.body)
         if body and isinstance(body[0], ast.Expr) and isinstance(body[0].value, ast.Constant) and isinstance(body[0].value.value, str):
             body = body[1:]
         lead = []
+        tail = []
+        seen = False
         for x in body:
             if x is st:
-                break
-            lead.append(x)
-        else:
+                seen = True
+                continue
+            (tail if seen else lead).append(x)
+        if not seen:
             return None
+        a = node.args
+        if a.vararg or a.kwarg:
+            return None
+        pos_params = [x.arg for x in a.posonlyargs + a.args]
+        kw_params = [x.arg for x in a.kwonlyargs]
+        self_name = None
+        if func.cls is not None and not func.is_staticmethod:
+            if not pos_params:
+                return None
+            self_name, pos_params = pos_params[0], pos_params[1:]
+        params = pos_params + kw_params
+        alias: dict[str, str] = {}  # local name -> the parameter it stands for
         for x in lead:
-            # only logging / assertions may come first
+            # only logging / assertions / `local = parameter` may come first
             if isinstance(x, ast.Assert):
                 continue
             if isinstance(x, ast.Expr) and isinstance(x.value, ast.Call) and isinstance(x.value.func, ast.Attribute) \
                     and isinstance(x.value.func.value, ast.Name) and x.value.func.value.id in ("logger", "logging"):
                 continue
+            tgt = val = None
+            if isinstance(x, ast.Assign) and len(x.targets) == 1:
+                tgt, val = x.targets[0], x.value
+            elif isinstance(x, ast.AnnAssign) and x.value is not None:
+                tgt, val = x.target, x.value
+            if isinstance(tgt, ast.Name) and isinstance(val, ast.Name) and val.id in params and tgt.id not in params and tgt.id not in alias \
+                    and val.id not in alias.values():
+                alias[tgt.id] = val.id
+                continue
             return None
-        a = node.args
-        if a.vararg or a.kwarg or a.kwonlyargs:
-            return None
-        params = [x.arg for x in a.posonlyargs + a.args]
-        loop_targets = set()
         assigned = set()
+        comp_bound = set()
         for n in ast.walk(ast.Module(body=st.body, type_ignores=[])):
-            if isinstance(n, (ast.For, ast.comprehension)):
-                loop_targets |= _target_names(n.target)
-            elif isinstance(n, ast.Name) and isinstance(n.ctx, ast.Store):
+            if isinstance(n, ast.Name) and isinstance(n.ctx, (ast.Store, ast.Del)):
                 assigned.add(n.id)
-            elif isinstance(n, (ast.FunctionDef, ast.Lambda, ast.While)):
+            elif isinstance(n, ast.comprehension):
+                comp_bound |= {m.id for m in ast.walk(n.target) if isinstance(m, ast.Name)}
+            elif isinstance(n, (ast.FunctionDef, ast.Lambda)):
                 return None
-        if not (assigned - loop_targets) <= set(params):
+        stmt_bound = set()
+        for n in ast.walk(ast.Module(body=st.body, type_ignores=[])):
+            if isinstance(n, (ast.Assign, ast.AugAssign, ast.AnnAssign, ast.For, ast.With, ast.NamedExpr)):
+                tgts = n.targets if isinstance(n, ast.Assign) else [n.target] if not isinstance(n, ast.With) else [i.optional_vars for i in n.items if i.optional_vars is not None]
+                for t_ in tgts:
+                    stmt_bound |= {m.id for m in ast.walk(t_) if isinstance(m, ast.Name) and isinstance(m.ctx, ast.Store)}
+            elif isinstance(n, ast.ExceptHandler) and n.name:
+                stmt_bound.add(n.name)
+        assigned = (assigned - comp_bound) | (assigned & stmt_bound)
+        if self_name in assigned:
             return None
-        # the parameters still hold the caller's values here (nothing before the loop assigns)
+        live = _live_at_entry(st.body + [ast.Expr(value=st.test)], set())
+        carried = {v for v in assigned if v in live}
+        if not carried <= (set(params) | set(alias)):
+            return None
+        mentioned = {n.id for n in ast.walk(ast.Module(body=st.body + tail + [ast.Expr(value=st.test)], type_ignores=[])) if isinstance(n, ast.Name)}
+        for loc, prm in alias.items():
+            if loc in assigned and prm in mentioned:
+                return None  # the parameter itself is still looked at while its stand-in moves on
+            if prm in assigned:
+                return None
+        by_param = {prm: loc for loc, prm in alias.items()}
+        # the parameters still hold the caller's values here (nothing before the loop assigns them)
         outs = []
         for s0, c in self.eval(st.test, state, func):
             c = self.as_cond(c)
@@ -594,8 +764,16 @@ class Evaluator:
                 if status == "break":
                     outs.append((stt, "fall", None, ln))
                 elif status in ("fall", "continue"):
-                    args = tuple(stt.env.get(p_, var(p_)) for p_ in params)
-                    outs.append((stt, "return", ("recurse", func.qname, args, ()), ln))
+                    def cur(p_):
+                        nm = by_param.get(p_, p_)
+                        return stt.env.get(nm, var(nm))
+                    args = tuple(cur(p_) for p_ in pos_params)
+                    kwargs = tuple(sorted((p_, cur(p_)) for p_ in kw_params if cur(p_) != state.env.get(p_, var(p_)) or True))
+                    if func.cls is not None and not func.is_staticmethod:
+                        recv = stt.env.get(self_name, var(self_name))
+                        outs.append((stt, "return", ("recurse", func.qname, args, kwargs) if func.is_classmethod else ("meth", recv, func.name, args, kwargs), ln))
+                    else:
+                        outs.append((stt, "return", ("recurse", func.qname, args, kwargs), ln))
                 else:
                     outs.append((stt, status, val, ln))
         return outs
@@ -624,7 +802,7 @@ class Evaluator:
             self._havoc_assigned(others, s2, "while-peel", st.lineno)
         peeled = ("peel", s2.env[name], tuple(sorted(names)), b.value.attr)
         s2.env[name] = peeled
-        s2.conds = add_cond(s2.conds, ("not", ("isinstance", peeled, tuple(sorted(names)))))
+        # (that the peeled value is no longer an instance of these classes is part of what `peel` means: isinstance_term folds such tests)
         return [(s2, "fall", None, st.lineno)]
 
     _localdefs: dict[int, tuple[ast.FunctionDef, Func]] = {}
@@ -1041,6 +1219,10 @@ class Evaluator:
                 dec = self._decompose(oldv, alts[0][1]) if oldv is not None else None
                 if dec is not None and len(dec) == 1 and dec[0][0] == "concat" and not dec[0][2] and dec[0][1][0] == "listlit" and len(dec[0][1][1]) == 1:
                     first_hit = ("accum", "concat", oldv, dec[0][1], ((pat, ("firsthit", it), tuple(alts[0][0])),), const(False))
+            if first_hit is None and breaks and not exits and len(alts) == 1 and all(from_break[name]) and len(breaks) == 1 and oldv is not None \
+                    and not any(x == oldv for x in subterms(alts[0][1])) and oldv[0] in ("const", "var", "attr"):
+                # `found = default; for x in S: if c(x): found = f(x); break`: the first hit, or the default -- next((f(x) for x in S if c(x)), default)
+                first_hit = ("call", "next", (("comp", "gen", alts[0][1], ((pat, it, tuple(alts[0][0])),)), oldv), ())
             acc = first_hit if first_hit is not None else self._summarise_accumulation(
                 name, oldv, alts, pat, it, line, bool(breaks), n_paths=len(normals) + len(breaks))
             if (acc is None or has_unknown(acc)) and self.loop_once and oldv is not None:
@@ -2762,6 +2944,27 @@ class Evaluator:
         if name in ("map", "filter") and len(args) == 2 and not kwargs:
             fn, xs = args
             items = self._literal_items(xs)
+            if name == "map" and items is not None and len(items) <= 6 and fn != NONE:
+                # map(f, (a, b)) over elements that are all known: (f(a), f(b))
+                outs_ = [(state, [])]
+                okm = True
+                for x_ in items:
+                    nxt_ = []
+                    for st_, acc_ in outs_:
+                        r_ = self.apply(fn, [x_], {}, st_, func, line)
+                        if any(v_[0] == "apply" for _s, v_ in r_):
+                            okm = False
+                            break
+                        nxt_.extend((s2_, acc_ + [v_]) for s2_, v_ in r_)
+                    if not okm:
+                        break
+                    outs_ = nxt_
+                if okm:
+                    res_ = []
+                    for st_, acc_ in outs_:
+                        bot_ = next((v_ for v_ in acc_ if v_[0] == "bottom"), None)
+                        res_.append((st_, bot_ if bot_ is not None else ("listlit", tuple(acc_))))
+                    return res_
             v = self.fresh("m_")
             et = self.elem_type(xs)
             if self._yields_pairs(xs) or (xs[0] == "comp" and xs[1] in ("list", "gen") and is_term(xs[2]) and xs[2][0] == "tuplelit" and len(xs[2][1]) == 2):
@@ -2817,6 +3020,8 @@ class Evaluator:
         names = self._class_names(spec)
         if names is None:
             return ("isinstance", x, spec)
+        if x[0] == "peel" and set(names) <= set(x[2]):
+            return FALSE  # what is left after `while isinstance(x, C): x = x.attr` is not a C
         typ = self.typeof(x)
         verdict = self._isinstance_by_type(typ, names)
         if verdict is True:
@@ -3073,7 +3278,7 @@ class Evaluator:
         try:
             state = State(env)
             entry = dict(env)
-            outs = self.exec_block(func.node.body, state, func)
+            outs = self.exec_block(_descent_as_loop(func), state, func)
             paths: list[Path] = []
             for st, status, val, line in outs:
                 w = tuple((k, st.env[k]) for k, v0 in entry.items()
